@@ -1,6 +1,6 @@
 PROP = dict(
     props="Props/C18.v",
-    tie={"modules": ["TieC18"],
+    tie={"modules": ["TieC18", "RpcMsg", "JsonText"],
          "fns": {"paged_api": ("paged_api_run", "paged_api_eqb", "(Z * Z * Z * Z) * option (list Z)"),
                  "acc_by_height": ("acc_by_height_run", "rpc_out_eqb", "(Z * Z * Z) * (Z * list Z * Z)"),
                  "mom_by_height": ("mom_by_height_run", "rpc_out_eqb", "(Z * Z * Z) * (Z * list Z * Z)"),
@@ -9,6 +9,8 @@ PROP = dict(
                  "mom_store_range": ("mom_store_range_run", "paged_api_eqb", "(Z * Z * bool * Z) * option (list Z)"),
                  "epoch_page": ("epoch_page_run", "zlist_eqb", "(Z * Z * Z) * list Z"),
                  "GetRange": ("GetRange18_run", "zz18_eqb", "(Z * Z * Z) * (Z * Z)"),
+                 "jt_print": ("jt_print_run", "zlist_eqb", "JtPrint * list Z"),
+                 "jt_parse": ("jt_parse_run", "jt_parse_eqb", "JtParse * option (list Z)"),
                  "rpc_session": ("rpc_session_run", "rpc_session_eqb", "(Transport * list Doc) * list ReplyDoc")}},
     suites=[{"bin": "c18", "name": "paging", "n": {"quick": 3, "thorough": 60}},
             {"bin": "c18", "name": "rewards", "n": {"quick": 1, "thorough": 8}},
@@ -21,22 +23,38 @@ PROP = dict(
          "sizes {0,1,2,3,n-1,n,n+1,1023,1024,1025,2^16,2^31,2^32-1,2^k,random} x indices {all in-range pages, first page past the end, the smallest indices whose 32-bit product wraps, "
          "multiples of 2^32/size, an index whose wrapped product lands inside the list, 2^31, 2^32-1, random}; Get{AccountBlocks,Momentums}By{Height,Page} for known, unknown and contract addresses with "
          "heights/counts over the full uint64 range (0,1,h-1..h+2,2^63,2^64-3..2^64-1,random); rewards: the epoch pagers on a node with one-hour epochs; "
+         "json: every block the ledger APIs return (all five block types, contract receives with descendants, paired blocks) and synthetic blocks with boundary values in every field "
+         "(amounts 0, +-(2^k+-1), 10^k, 2^256, uint64 boundaries, nil / empty / 16 KiB data, nested descendants) printed and parsed through nom.AccountBlock and api.AccountBlock; "
+         "per field the printed text and the parse of canonical and mutated texts (letter case, signs, leading zeros, white space, cut / doubled / swapped / foreign characters, "
+         "bech32 with the bech32m constant / other prefixes / payloads one group short or long, base64 without padding / URL alphabet / line breaks / changed unused bits, arrays and null for byte strings, raw number tokens with fraction / exponent / sign / 2^64); "
+         "hostile: a child process runs the real rpc/server with the ledger, subscription and embedded APIs behind net/http, the websocket handler and a unix-socket ServeListener; structured JSON-RPC documents "
+         "(single and batch; elements null / true / numbers / strings / arrays / nested batches / {} / objects whose jsonrpc, id, method, params members are absent, null, wrong-typed, repeated, matched only under case folding; ids of every JSON kind incl. 30000-digit numbers; "
+         "unknown methods, every registered method (77, signatures read by reflection) with good / too many / too few / wrong-typed / huge / null arguments, params as object / scalar / null, notifications, responses sent as requests, subscribe / unsubscribe forms; empty batch, batch of 1, batches of up to 1000, valid probe calls mixed with hostile elements) "
+         "and byte-level damage (cut behind every structural character, invalid UTF-8, BOM, trailing garbage, changed bytes, nesting 10 .. 100000, 200000-character tokens, things that are not JSON), HTTP envelopes (oversized, at the limit, content types, methods, empty), "
+         "each over http, ipc and websocket, a probe call afterwards; subscription life cycle with hostile unsubscribes and dropped connections; "
          "a case is distinct by (function, input); non-trivial = every case (no trivial tag used)",
     explanation="Theorems (about Pure.GetRange, re-translated from rpc/api/utils.go on every run, and the hand model of the by-height/by-page/epoch arithmetic): GetRange returns (min(i*c,n), min(i*c+c,n)) for every uint32 input; "
                 "the first k pages of any list concatenate to the list (each element once, in order) and every page beyond the end is empty for every uint32 index; list[start:end] never panics; a reply has at most size <= limit elements; "
                 "GetAccountBlocksByHeight / GetMomentumsByHeight return exactly the existing heights of [height, height+count) with Count = frontier height; the By-Page variants are the descending pages of h..1 and partition it; "
                 "the reward/history pagers return the descending epoch window; allocation in getMomentumsByRange is bounded by the request for the reachable callers. "
                 "Modelled: GetRange + slicing, the pageSize/count guards, MoreByHeight, momentumStore.GetMomentumsByHeight/getMomentumsByRange, nil filtering, the int64(uint32) window arithmetic of Get*ByPage, the epoch cursor of getFrontierRewardByPage/GetPillarEpochHistory. "
-                "Lists are abstracted to positions / heights; that the element returned for a position/height is the stored one, Count, JSON round trip of every returned block and momentum are checked by the oracles on the real APIs. "
-                "Server robustness (rpc/server fed malformed, huge, deeply nested, batched, oversized requests; survival and error replies counted in input_distribution under server:*) is supporting exploration only.",
+                "Lists are abstracted to positions / heights; that the element returned for a position/height is the stored one and Count are checked by the oracles on the real APIs. "
+                "JSON-RPC server (RpcMsg.v, mirrors json.go parseMessage / readBatch, handler.go handleBatch / handleMsg / handleImmediate / handleCallMsg / handleCall and the read loops of http and of the stream transports): for every document class and every sequence of documents on a connection the decision never reaches the nil dereference; "
+                "a message / batch is answered with exactly one reply per element that is neither notification nor response, in order, echoing the id (null when none can be echoed), calls with the outcome of dispatch, everything else with 'invalid request', an empty batch with one error object, never with a parse error; at most one reply document per document; over http silence only for an empty body or a document of notifications / responses; "
+                "without readBatch's replacement of nil messages a JSON null in message position panics (refuted variant). The model is evaluated on every observed session and compared with the reply documents of the real server over http / ipc / websocket; the oracles server-process-survives, every-request-gets-a-response-or-clean-close, server-still-answers-a-valid-call-afterwards state the clause on the implementation. "
+                "JSON text of blocks (JsonText.v): print then parse is the identity for amounts (every integer), uint64 fields (0..2^64-1), nonce / hash hex, bech32 addresses and token standards (bit regrouping 8->5->8, character set, separator search, letter-case rule, checksum comparison), base64 byte strings; "
+                "second text forms proved and observed on the real code: amounts take '+', leading zeros, '-0', and read ANY non-number text (\"\", \"abc\", \"1e3\", \" 5\") as 0; uint64 takes null for 0 and nothing else (the printed literal is proved unique); hex takes upper case and nothing else; api.AccountBlock reads every invalid nonce text as the zero nonce (nom.AccountBlock refuses it); "
+                "addresses / token standards take all-upper-case, the bech32m checksum and a payload one 5-bit group short (padded); byte strings take line breaks inside the base64 text, any unused low bits in the last character, a JSON array of numbers, null. None of them yields a different block: oracle non-canonical-json-text-rejected-or-same-block; json-roundtrip-same-hash is the clause itself on every block.",
     assumptions=["a list / chain is abstracted to its positions / heights 1..h; the content of an element is checked by the harness oracles, not by the theorems",
                  "frontier heights are below 2^63-1 (int64(frontier.Height) does not wrap) and list lengths below 2^32 (uint32(len(list)))",
                  "make([]T,0,cap) fails only for capacities >= 2^40 (alloc_limit stands for the run-time's bound)",
-                 "JSON-RPC server, encoding/json and the http layer are not modelled (explored only)"],
+                 "JSON-RPC: a document is abstracted by the harness to the class the decoder of encoding/json gives it (syntax error / unexpected end / end / value) and a message to the members the handler looks at; encoding/json, net/http and the websocket framing are not modelled; the outcome of registry lookup + argument decoding (not found / invalid params / runs) is computed by the harness from the method signatures the child reports",
+                 "bech32: the verification polymod(prefix, data, checksum) in {1, 0x2bc830a3} is modelled as 'the last six characters equal the bech32 or the bech32m checksum of what precedes them' (equal for a BCH code; compared with btcutil on intact and damaged checksums on every run)",
+                 "JSON text: only the value text of a field is modelled (string content / number token); string escapes, member-name matching, white space and duplicate members are encoding/json behaviour, exercised by the oracles only"],
 )
 META = dict(
     text="Machine-checked Coq theorems over every page index/size in uint32, every height/count in uint64 and every list/chain length, about the go2coq translation of api.GetRange (re-translated from /repo on every run) and a Gallina model of the Get*ByHeight / Get*ByPage / reward-pager arithmetic with the wrap-around of the Go integer types, compared with the real LedgerApi and embedded APIs on every run. A theorem over the full index range is what found the uint32 product overflow (page index 2^22 with size 1024 returned page 0 again) and the MoreByHeight wrap, both fixed in /repo.",
     design_ref="DESIGN.md section 5, C18",
-    note="PARTIAL: the clause 'malformed, oversized or hostile JSON-RPC requests produce error responses and never terminate the server' is runtime/library behaviour (rpc/server, encoding/json, net/http): the harness feeds the real in-process server malformed/huge/deeply nested/batched/oversized requests and records survival and reply classes in the evidence (input_distribution server:*), it is not a theorem. The JSON round trip of blocks is an oracle on the real code (every block and momentum returned by the APIs), not a proved codec theorem. Proved: paging/range/bounds arithmetic for all inputs. Trusted: Coq kernel, go2coq, constdump, harness. All theorems closed under the global context.",
+    note="PARTIAL: 'never terminate the server' is proved for the modelled decision of rpc/server (message classification, batch handling, reply construction) and observed on the real process for every generated document over every transport; panics inside encoding/json, net/http, the websocket library or inside json.Marshal of a result (handler.runMethod marshals outside callback.call's recover) are covered by the process-survival oracle only. The JSON round trip is proved per scalar field on the text model and tied field by field; the composition into the whole block object (member names, nesting of descendants, momentumAcknowledged) is encoding/json's and is checked by the oracles json-roundtrip-same-hash / non-canonical-json-text-rejected-or-same-block on real and synthetic blocks, not proved. Momentum JSON: oracle only. Proved for all inputs: paging/range/bounds arithmetic, the JSON-RPC decision, the field text forms. Trusted: Coq kernel, go2coq, constdump, harness (its abstraction of bytes to document classes). All theorems closed under the global context.",
     technique="Coq proof (lia/nia over Z with explicit uint32/uint64/int64 wrap, induction over page counts and loops) on go2coq-translated and hand-modelled code + differential correspondence check + property oracles on the real RPC APIs",
 )
